@@ -256,7 +256,7 @@ use alloc::alloc::handle_alloc_error;
 use alloc::alloc::{AllocError, Allocator, Global, Layout};
 use alloc::boxed::Box;
 
-use crate::link::Links;
+use crate::link::{Link, Links};
 
 #[cfg(test)]
 #[allow(clippy::redundant_clone)]
@@ -340,6 +340,35 @@ impl<T> Rc<T> {
 
     unsafe fn from_ptr(ptr: *mut RcBox<T>) -> Self {
         Self::from_inner(NonNull::new_unchecked(ptr))
+    }
+
+    /// Remove `this` from the link tables of every `Rc` it is linked with and
+    /// destroy its own link table.
+    ///
+    /// This must happen before the allocation of `this` is given up by any
+    /// path other than `Drop`. Otherwise the former peers keep links to an
+    /// allocation that may be released, and the next reachability trace that
+    /// reaches one of them dereferences it.
+    ///
+    /// # Safety
+    ///
+    /// `this` must not be dead, and its link table must not be used again.
+    unsafe fn release_links(this: &Self) {
+        let forward = Link::forward(this.ptr);
+        let backward = Link::backward(this.ptr);
+        let links = this.inner().links();
+        for (item, &strong) in links.borrow().iter() {
+            // Self-adoptions live in the table that is about to be destroyed.
+            if ptr::eq(this.inner(), item.as_ptr()) {
+                continue;
+            }
+            let mut links = item.as_ref().links().borrow_mut();
+            links.remove(forward, strong);
+            links.remove(backward, strong);
+        }
+        let rcbox = this.ptr.as_ptr();
+        let links = mem::replace(&mut (*rcbox).links, MaybeUninit::uninit());
+        drop(links.assume_init());
     }
 }
 
@@ -433,6 +462,10 @@ impl<T> Rc<T> {
         if Rc::strong_count(&this) == 1 {
             unsafe {
                 let val = ptr::read(&*this); // copy the contained object
+
+                // The allocation is given up without running `Drop`: unlink it
+                // from the object graph and destroy its link table first.
+                Self::release_links(&this);
 
                 // Indicate to Weaks that they can't be promoted by decrementing
                 // the strong count, and then remove the implicit "strong weak"
